@@ -11,6 +11,8 @@ CONSTANTS
   MaxDepth = 7
   MaxCols = 2
   Emit = FALSE
+  ObsV = {}
+  ObsT = {}
 VIEW View
 CONSTRAINT Bound
 INVARIANT InvRegistryExact
